@@ -294,6 +294,8 @@ def refined_reach(body, starts, blocked_edges=()):
                 l = op_local(t['args'][0])
                 if l in st and st[l] in (0, 1):
                     st[d] = st[l]
+            elif cname(t) == 'core::ops::try_trait::FromResidual::from_residual':
+                st[d] = 1          # `?` re-wraps the failure: the result built here is an Err / Break
         elif t['k'] == 'switch':
             l = op_local(t['discr'])
             v = st.get(l) if l is not None else None
